@@ -14,7 +14,10 @@ from lib import Failure, TieResult
 HARNESS = "harness/array/arr_harness.cpp"
 DEPS = ["harness/tracked.h"]
 RESET = "arr reset"
-ELEMS = {"tracked": (1, []), "long": (0, ["-DELEM_LONG"]), "uchar": (0, ["-DELEM_UCHAR"]), "double": (0, ["-DELEM_DOUBLE"])}
+ELEMS = {"tracked": (1, []), "long": (0, ["-DELEM_LONG"]), "uchar": (0, ["-DELEM_UCHAR"]), "double": (0, ["-DELEM_DOUBLE"]),
+         # class path of Array.h for a class whose lifetime is not observable (trivially copyable/destructible, non-trivial default ctor)
+         "pod": (1, ["-DELEM_POD"])}
+VALUE_ONLY = {"pod"}         # element types compared on results only (no lifetime deltas, no live set)
 
 PROPS = {
     "C14": {
@@ -231,8 +234,12 @@ def canon(exp, out):
 
 
 def project(cls, line):
-    """without a lifetime-observable element type only results are compared"""
-    return line if cls else line.split(" | ")[0]
+    """without a lifetime-observable element type only results are compared (and the live-set / owned-block queries are skipped)"""
+    if cls:
+        return line
+    if line.startswith("live="):
+        return "live=<not observable>"
+    return line.split(" | ")[0]
 
 
 # ------------------------------------------------------------------ generators
@@ -555,11 +562,12 @@ def run_tie(prop, spec, tier, seed):
         nfail = 0
         seen, kinds = set(), set()
         b = bins[elem]
+        pcls = 0 if elem in VALUE_ONLY else cls
         for c, e, o in zip(cases, exps, outs):
             if o == ["!SKIPPED"]:
                 res.extra["skipped_after_%d_aborts_%s" % (MAX_ABORTS, elem)] = res.extra.get("skipped_after_%d_aborts_%s" % (MAX_ABORTS, elem), 0) + 1
                 continue
-            d = differs(cls, e, o)
+            d = differs(pcls, e, o)
             if d is None:
                 continue
             nfail += 1
@@ -572,7 +580,7 @@ def run_tie(prop, spec, tier, seed):
             def fails(cand):
                 if not valid(cand):
                     return False
-                return differs(cls, expected(cand), run_impl(b, [cand])[0]) is not None
+                return differs(pcls, expected(cand), run_impl(b, [cand])[0]) is not None
             small = seqtie.ddmin(c, fails)
             sig = ";".join(small)
             if sig in seen:
@@ -580,7 +588,7 @@ def run_tie(prop, spec, tier, seed):
             seen.add(sig)
             ee = expected(small)
             oo = run_impl(b, [small], symbolize=True)[0]
-            dd = differs(cls, ee, oo) or d
+            dd = differs(pcls, ee, oo) or d
             res.failures.append(Failure(
                 "violation",
                 "Array<%s> differs from the list specification at op %d (%s): expected %r, got %r" %
